@@ -828,6 +828,81 @@ def replay_finding(f):
     return bool(later) and not any(p["lw"].get(0) for p in later)
 
 
+class _Collector:
+    """stand-in for the run context while replaying one recorded case: records oracle failures only"""
+
+    def __init__(self):
+        self.fails = []
+        self.notes = []
+
+    def fail(self, what, case, expected, observed, key=None):
+        self.fails.append({"what": what, "expected": expected, "observed": observed, "key": key})
+
+    def disagree(self, *a, **k):
+        pass
+
+
+def replay(data):
+    """./check replay <file>: re-evaluate the property oracle on the recorded case against the current /repo"""
+    case = data.get("case") or {}
+    col = _Collector()
+    if isinstance(case, dict) and "lcd" in case:
+        d, nows = case["lcd"], case["nows"]
+        src = device_script([d])
+        t = fw.transpile_many([src])[0]
+        if not t["ok"]:
+            print("REPRODUCED: the transpiler rejects the script", t)
+            return 1
+        incs = [nows[0]] + [b - a for a, b in zip(nows, nows[1:])]
+        o = fw.run_sketches([{"cpp": t["cpp"], "input": "clock0 0\npass " + " ".join(map(str, incs)) + "\n", "loops": len(nows),
+                              "env": {"REDU_LCD_DUMP": "1", "REDU_NO_READ_EVENTS": "1"}, "run_timeout": 120}])[0]
+        if not o["compiled"] or o["rc"] != 0:
+            print("REPRODUCED: the emitted sketch does not compile / crashed", o["compile_log"][-600:], o["stderr"][-300:])
+            return 1
+        _, setup_ev, loops = fw.split_phases(o["events"])
+        setup, passes = parse_phase(setup_ev), [parse_phase(p) for p in loops]
+        for ph in [setup] + passes:
+            if ph["delays"]:
+                col.fail("delay()/delayMicroseconds() called although the script never sleeps", case, "no D/DU event", ph["delays"][:3], key="dev-delay")
+                break
+        device_oracle(col, case, setup, passes, 0, {})
+    elif isinstance(case, dict) and "anims" in case and "nows" in case:
+        r = C.run_impl("c18_impl.py", {"cases": [case]}, timeout=600)[0]
+        if host_in_guard(case):
+            host_oracle(col, case, r, {})
+        else:
+            print("replay: the case lies outside the oracle's guard (positive non-decreasing tick times, positive geometry)")
+    elif isinstance(case, dict) and "script" in case:
+        t = fw.transpile_many([case["script"]])[0]
+        if not t["ok"]:
+            print("REPRODUCED: the transpiler rejects the script", t)
+            return 1
+        nows = case.get("nows") or [10, 20, 30, 40, 50]
+        incs = [nows[0]] + [b - a for a, b in zip(nows, nows[1:])]
+        o = fw.run_sketches([{"cpp": t["cpp"], "input": "clock0 0\npass " + " ".join(map(str, incs)) + "\n", "loops": len(nows),
+                              "env": {"REDU_LCD_DUMP": "1", "REDU_NO_READ_EVENTS": "1"}, "run_timeout": 120}])[0]
+        if not o["compiled"] or o["rc"] != 0:
+            print("REPRODUCED: the emitted sketch does not compile / crashed", o["compile_log"][-600:], o["stderr"][-300:])
+            return 1
+        cpp = t["cpp"]
+        loop_txt = cpp[cpp.find("void loop()"):]
+        started = len(re.findall(r"__redu_lcd_start_\w+\(", cpp[cpp.find("void setup()"):cpp.find("void loop()")]))
+        ticked = len(TICK_RE.findall(loop_txt))
+        if started != ticked:
+            col.fail("loop() does not tick every animation started before the main loop exactly once", case, started, ticked, key="dev-tick-injected")
+        if any(e.startswith(("D ", "DU ")) for e in o["events"]):
+            col.fail("delay()/delayMicroseconds() called although the script never sleeps", case, "no D/DU event",
+                     [e for e in o["events"] if e.startswith(("D ", "DU "))][:3], key="dev-delay")
+    else:
+        print("replay: no replayable case in this file (correspondence / proof failure: see the fields above)")
+        return 0
+    for f in col.fails:
+        print(f"REPRODUCED [{f['key']}] {f['what']} (expected {f['expected']}, observed {f['observed']})")
+    if not col.fails:
+        print("replay: the property's oracle holds on this case now")
+    return 1 if col.fails else 0
+
+
 def run(ctx: C.Ctx):
     stats = {}
     hcases, h_nt = run_host(ctx, stats)
